@@ -197,7 +197,26 @@ def rule_precombine(ctx):
         src = cnd
         if cnd.get("k") == "Path" and cnd.get("local") in inits:
             src = strip(inits[cnd["local"]][1])
-        if src.get("k") == "MethodCall" and src["name"] == "is_linear":
+        inlined_linear = False
+        if src.get("k") == "Match":
+            # `matches!(method, KernelMethod::Linear)` / a match that is true for the linear kernel only
+            true_for = set()
+            readable = True
+            for a in src["arms"]:
+                p_ = a["pat"]
+                while p_.get("k") == "Ref":
+                    p_ = p_["pat"]
+                vn = (c.dfn(p_.get("def")) or {}).get("name") if p_.get("k") in ("Path", "TupleStruct", "Struct") else ("_" if p_.get("k") == "Wild" else None)
+                b_ = strip(a["body"])
+                while b_.get("k") == "Block" and not b_.get("stmts") and b_.get("e") is not None:
+                    b_ = strip(b_["e"])
+                if b_.get("k") == "Lit" and str(b_.get("v")) in ("true", "false") and vn is not None:
+                    if str(b_.get("v")) == "true":
+                        true_for.add(vn)
+                else:
+                    readable = False
+            inlined_linear = readable and true_for == {"Linear"}
+        if (src.get("k") == "MethodCall" and src["name"] == "is_linear") or inlined_linear:
             res.ok()
         elif src.get("k") in ("Match", "Binary", "If") or (src.get("k") == "MethodCall" and src["name"] != "is_linear"):
             res.violate("%s : precombination-not-keyed-on-is-linear" % key, "the branch that folds the support vectors into one hyperplane is taken under `%s`, not under `is_linear()`: a kernel with a constant term (polynomial of degree one) is folded without that constant while rho keeps it" % r.e(src)[:60], fn_loc(fn, branch.get("ln")))
